@@ -155,6 +155,7 @@ pub fn run(t: &[&str]) -> String {
     for tok in &t[1..] { if let Some((k, v)) = tok.split_once('=') { kv.insert(k, v); } }
     let kind = kv.get("kind").copied().unwrap_or("mbuff").to_string();
     let norun = kv.get("norun").is_some();
+    let anyprog = kv.get("anyprog").is_some();
     let force: Vec<String> = kv.get("force").map(|s| s.split(',').map(|x| x.to_string()).collect()).unwrap_or_default();
     let engines: Vec<String> = kv.get("engines").map(|s| s.split(',').filter(|x| !x.is_empty() && *x != "-").map(|x| x.to_string()).collect()).unwrap_or_default();
     let fixoff: (usize, usize) = kv.get("fixoff").and_then(|s| s.split_once(':')).map(|(a, b)| (a.parse().unwrap_or(0), b.parse().unwrap_or(8))).unwrap_or((0, 8));
@@ -189,6 +190,14 @@ pub fn run(t: &[&str]) -> String {
                 if v.set_program(progref, fixoff.0, fixoff.1).is_err() { return Ok("rejected".into()); }
                 Vm::Fixed(v)
             }
+            _ if anyprog => {
+                // arbitrary byte strings: loaded through an accept-all verifier, never executed, only compiled
+                fn accept_all(_p: &[u8]) -> Result<(), std::io::Error> { Ok(()) }
+                let mut v = rbpf::EbpfVmMbuff::new(None).map_err(es)?;
+                v.set_verifier(accept_all).map_err(es)?;
+                match std::panic::catch_unwind(std::panic::AssertUnwindSafe(|| v.set_program(progref))) { Ok(Ok(())) => {}, Ok(Err(_)) => return Ok("rejected".into()), Err(_) => return Ok("load-panic".into()) }
+                Vm::Mbuff(v)
+            }
             _ => match rbpf::EbpfVmMbuff::new(Some(progref)) { Ok(v) => Vm::Mbuff(v), Err(_) => return Ok("rejected".into()) },
         };
         for (k, f) in &cref.helpers { each_vm!(&mut vm, v => v.register_helper(*k, helper_fn(*f)).map_err(es)?); }
@@ -200,14 +209,14 @@ pub fn run(t: &[&str]) -> String {
         rbpf::verif::set_insn_budget(cref.budget);
         let memr: &mut [u8] = unsafe { std::slice::from_raw_parts_mut(mem_ptr, mem_len) };
         let mbuffr: &[u8] = unsafe { std::slice::from_raw_parts(mbuff_ptr, mbuff_len) };
-        let r = match &mut vm {
+        let r = if anyprog { Err(std::io::Error::other("not executed")) } else { match &mut vm {
             Vm::Mbuff(v) => v.execute_program(memr, mbuffr),
             Vm::Raw(v) => v.execute_program(memr),
             Vm::NoData(v) => v.execute_program(),
             Vm::Fixed(v) => v.execute_program(memr),
-        };
+        } };
         rbpf::verif::set_insn_budget(0);
-        let out = match r { Ok(v) => format!("ok r0={:016x}", v), Err(e) => { let cl = err_class(&e.to_string()); if cl == "budget" { "budget".to_string() } else { format!("err:{}", cl) } } };
+        let out = if anyprog { "noexec".to_string() } else { match r { Ok(v) => format!("ok r0={:016x}", v), Err(e) => { let cl = err_class(&e.to_string()); if cl == "budget" { "budget".to_string() } else { format!("err:{}", cl) } } } };
         let interp_ok = out.starts_with("ok");
         let (nlog, logd) = log_digest();
         let (mview, bview): (&[u8], &[u8]) = unsafe { (std::slice::from_raw_parts(mem_ptr, mem_len), std::slice::from_raw_parts(mbuff_ptr, mbuff_len)) };
@@ -237,6 +246,7 @@ pub fn run(t: &[&str]) -> String {
             if st(&c1) != st(&c2) || code1 != code2 { engine_out_ref.push(format!("{}=nonrepeatable:{}:{}", e, st(&c1), st(&c2))); continue; }
             if st(&c1) != "ok" { engine_out_ref.push(format!("{}={}", e, st(&c1))); continue; }
             let code_info = match &code1 { Some(c) => format!(":code={}.{:016x}", c.len(), fnv(c)), None => String::new() };
+            if let Some(c) = &code1 { engine_out_ref.push(format!("jitcode={}.{:016x}", c.len(), fnv(c))); }
             if (!interp_ok && !force.contains(e)) || norun { engine_out_ref.push(format!("{}=compiled{}", e, code_info)); continue; }   // outside the claim: never run unchecked code
             // run the generated code in a forked child: a fault, trap or endless loop must not take the harness down
             let vmref = &mut vm;
@@ -267,8 +277,9 @@ pub fn run(t: &[&str]) -> String {
     // canonical outcome: "<outcome> mem= mbuff= extra= log=" (extra appended here: engines never see allowed memory)
     let out = if out.contains(" LOG=") { let (a, b) = out.split_once(" LOG=").unwrap(); format!("{} extra={:016x} log={}", a, fnv(&extra_all), b) } else { out };
     let eng = if engine_out.is_empty() { String::new() } else { format!(" | {}", engine_out.join(" | ")) };
-    format!("{}{} @ membase={:x} mbuffbase={:x} extrabase={} stackbase={:x} fixedbase={:x}", out, eng, membase, mbuffbase,
-        if extrabase.is_empty() { "-".to_string() } else { extrabase.iter().map(|x| format!("{:x}", x)).collect::<Vec<_>>().join(",") }, stackbase, fixedbase)
+    format!("{}{} @ membase={:x} mbuffbase={:x} extrabase={} stackbase={:x} fixedbase={:x} hfn={:x},{:x},{:x},{:x}", out, eng, membase, mbuffbase,
+        if extrabase.is_empty() { "-".to_string() } else { extrabase.iter().map(|x| format!("{:x}", x)).collect::<Vec<_>>().join(",") }, stackbase, fixedbase,
+        helper_fn(0) as usize, helper_fn(1) as usize, helper_fn(2) as usize, helper_fn(3) as usize)
 }
 
 // ------------------------------------------------------------------------------------------------
@@ -723,4 +734,18 @@ pub fn gen_clifprobe(w: &mut impl Write, thorough: bool, seed: u64) {
     let mut k = 0u64;
     with_suffix(w, |b| gen_memprobe(b, thorough, seed), &mut |l| { k += 1; if l.contains("arange=") && l.contains("extra0") { return None; }
         if thorough || k % 4 == 0 { Some("engines=clif force=clif kind=mbuff".into()) } else { None } });
+}
+
+/// C12 (model validation): arbitrary whole-slot byte strings of the verify suite, loaded through an accept-all verifier and only compiled:
+/// exercises the compile-time Err / panic sites of both compilers on programs the default verifier would refuse
+pub fn gen_anyprog_engines(w: &mut impl Write, thorough: bool, seed: u64) {
+    let mut buf: Vec<u8> = vec![];
+    crate::verify::gen(&mut buf, thorough, seed);
+    let mut k = 0u64;
+    for l in String::from_utf8(buf).unwrap().lines() {
+        let Some(p) = l.strip_prefix("verify ") else { continue };
+        if p.len() > 16 * 400 || p == "-" { continue; }
+        k += 1; if !thorough && k % 3 != 0 { continue; }
+        writeln!(w, "exec tag=anyprog prog={} helpers=1:0,2:1,ffffffff:2 engines=jit,clif kind=mbuff norun=1 anyprog=1", p).unwrap();
+    }
 }
